@@ -21,7 +21,7 @@ use std::rc::Rc;
 use std::sync::Arc;
 use std::time::Duration;
 
-pub const RULE: &str = "bmp-station: histories of two wire-level BGP peers (session up / closed, announce with 6 attribute variants of which two are rejected by the import policy, withdraw; IPv4 prefixes) and up to two BMP stations that connect at any point (policy pre, post or both) to the daemon's BmpClient::serve over a loopback socket. \
+pub const RULE: &str = "bmp-station: histories of two wire-level BGP peers (session up / closed, announce with 6 attribute variants of which two are rejected by the import policy, withdraw; IPv4 prefixes) and up to two BMP stations that connect at any point (policy pre, post or both) to the daemon's BmpClient::serve over a loopback socket; in 40% of the cases the peers send Add-Path and the daemon only receives it, and the station decides from the two OPENs of Peer Up whether monitored UPDATEs carry path identifiers. \
 The station's byte stream is cut into BMP messages by the independent reader, embedded UPDATEs are parsed by the repository's codec, and Route Monitoring is folded per (peer, prefix) into a pre-policy and a post-policy view (Peer Down clears the peer). At every quiescent point each view the station asked for equals the RIB's (Table::iter_reach / iter_reach_post); \
 Peer Down is seen only for a peer whose Peer Up the station was sent; the stream tiles into well-formed messages starting with Initiation. non-trivial := a station connects while routes are held, or a peer goes down while a station is connected";
 
@@ -29,8 +29,20 @@ Peer Down is seen only for a peer whose Peer Up the station was sent; the stream
 pub enum Op {
     Up(u8),
     Down(u8),
-    Announce { peer: u8, prefix: u8, variant: u8 },
-    Withdraw { peer: u8, prefix: u8 },
+    Announce {
+        peer: u8,
+        prefix: u8,
+        variant: u8,
+        /// path identifier (sessions with Add-Path only)
+        #[serde(default)]
+        pid: u8,
+    },
+    Withdraw {
+        peer: u8,
+        prefix: u8,
+        #[serde(default)]
+        pid: u8,
+    },
     /// a station connects asking for pre (0), post (1) or both (2)
     Station(u8),
     StationGone(u8),
@@ -38,6 +50,9 @@ pub enum Op {
 
 #[derive(Clone, Debug, Serialize, Deserialize)]
 pub struct Case {
+    /// the peers send Add-Path and the daemon only receives it (an asymmetric negotiation)
+    #[serde(default)]
+    pub addpath: bool,
     pub ops: Vec<Op>,
 }
 
@@ -57,6 +72,8 @@ struct Station {
     policy: u8,
     initiated: bool,
     up: BTreeSet<IpAddr>,
+    /// per peer: do the UPDATEs received from it carry path identifiers, according to the two OPENs of its Peer Up
+    addpath_in: BTreeMap<IpAddr, bool>,
     pre: View,
     post: View,
     closed: bool,
@@ -104,9 +121,17 @@ impl Station {
                 self.initiated = true;
             }
             _ if !self.initiated => return Err(Failure::new("bmp-order", "the stream does not start with Initiation".to_string())),
-            BmpBody::PeerUp { peer, .. } => {
+            BmpBody::PeerUp { peer, sent_open, received_open, .. } => {
                 if peer.peer_type == 0 {
                     self.up.insert(peer.addr);
+                    // Add-Path towards the daemon: it advertised "receive" and the peer "send" for IPv4 unicast
+                    let modes = |pdu: &[u8]| -> u8 {
+                        match PeerCodec::new().parse_message(pdu) {
+                            Ok(bgp::ParsedMessage::Open(o)) => o.capability.iter().filter_map(|c| if let bgp::Capability::AddPath(v) = c { Some(v.iter().filter(|(f, _)| *f == Family::IPV4).map(|(_, m)| *m).fold(0, |a, b| a | b)) } else { None }).fold(0, |a, b| a | b),
+                            _ => 0,
+                        }
+                    };
+                    self.addpath_in.insert(peer.addr, modes(&sent_open) & 1 != 0 && modes(&received_open) & 2 != 0);
                 }
             }
             BmpBody::PeerDown { peer, .. } => {
@@ -126,7 +151,7 @@ impl Station {
                 let post = peer.flags & 0x40 != 0;
                 for pdu in pdus {
                     let mut codec = PeerCodec::new();
-                    codec.set_family(Family::IPV4, bgp::FamilyState { addpath_rx: false, addpath_tx: false });
+                    codec.set_family(Family::IPV4, bgp::FamilyState { addpath_rx: self.addpath_in.get(&peer.addr).copied().unwrap_or(false), addpath_tx: false });
                     let parsed = codec.parse_message(&pdu).map_err(|n| Failure::new("bmp-embedded", format!("Route Monitoring for {}: embedded UPDATE does not parse: {n:?}", peer.addr)))?;
                     let msgs: Vec<Message> = bgp::validate_message(parsed, false).map_err(|n| Failure::new("bmp-embedded", format!("Route Monitoring for {}: embedded UPDATE is refused: {n:?}", peer.addr)))?.collect();
                     let view = if post { &mut self.post } else { &mut self.pre };
@@ -199,13 +224,14 @@ async fn run_case(c: &Case) -> CheckResult {
     let mut live = [false; 2];
     for i in 0..2u8 {
         let src = crate::props::wirepeer::fresh_loopback();
-        let cfg = NeighborCfg { addr: src, remote_asn: 65101 + i as u32, local_asn: 0, rs_client: false, rr_client: false, cluster_id: None, admin_down: false, holdtime: 90, families: vec![(Family::IPV4, 0)], prefix_limit: None, gr: None, llgr: None };
+        let cfg = NeighborCfg { addr: src, remote_asn: 65101 + i as u32, local_asn: 0, rs_client: false, rr_client: false, cluster_id: None, admin_down: false, holdtime: 90, families: vec![(Family::IPV4, if c.addpath { 1 } else { 0 })], prefix_limit: None, gr: None, llgr: None };
         if !rig.add_neighbor(&cfg).await {
             return Err(Failure::new("harness", "add_peer refuses the neighbour".to_string()));
         }
         peers.push(WirePeer::on(rig.clone(), src));
-        let caps = vec![bgp::Capability::MultiProtocol(Family::IPV4), bgp::Capability::FourOctetAsNumber(65101 + i as u32)];
-        codecs.push(PeerCodec::negotiate(&caps, &caps));
+        let mut codec = PeerCodec::new();
+        codec.set_family(Family::IPV4, bgp::FamilyState { addpath_rx: false, addpath_tx: c.addpath });
+        codecs.push(codec);
     }
     let mut stations: Vec<Station> = Vec::new();
     let mut info = CaseInfo::trivial();
@@ -219,7 +245,11 @@ async fn run_case(c: &Case) -> CheckResult {
                 }
                 peers[p].connect().await?;
                 let asn = 65101 + p as u32;
-                if !peers[p].establish(asn, 0, 0x0a0b_0002 + p as u32, vec![bgp::Capability::MultiProtocol(Family::IPV4), bgp::Capability::FourOctetAsNumber(asn)]).await? {
+                let mut caps = vec![bgp::Capability::MultiProtocol(Family::IPV4), bgp::Capability::FourOctetAsNumber(asn)];
+                if c.addpath {
+                    caps.push(bgp::Capability::AddPath(vec![(Family::IPV4, 2)]));
+                }
+                if !peers[p].establish(asn, 0, 0x0a0b_0002 + p as u32, caps).await? {
                     return Err(Failure::new("harness", "the session did not establish".to_string()));
                 }
                 live[p] = true;
@@ -236,20 +266,20 @@ async fn run_case(c: &Case) -> CheckResult {
                     info.classes.push("peer-down-while-station-connected");
                 }
             }
-            Op::Announce { peer, prefix: px, variant } => {
+            Op::Announce { peer, prefix: px, variant, pid } => {
                 let p = *peer as usize % 2;
                 if !live[p] {
                     continue;
                 }
-                let msg = Message::Update(Update::Reach { family: Family::IPV4, entries: vec![bgp::PathNlri { path_id: 0, nlri: prefix(*px) }], nexthop: Some(bgp::Nexthop::V4(Ipv4Addr::new(192, 0, 2, 1 + variant % 3))), attr: attrs_variant(*variant % 6) });
+                let msg = Message::Update(Update::Reach { family: Family::IPV4, entries: vec![bgp::PathNlri { path_id: if c.addpath { 1 + (*pid % 2) as u32 } else { 0 }, nlri: prefix(*px) }], nexthop: Some(bgp::Nexthop::V4(Ipv4Addr::new(192, 0, 2, 1 + variant % 3))), attr: attrs_variant(*variant % 6) });
                 peers[p].send_msg(&mut codecs[p], &msg).await?;
             }
-            Op::Withdraw { peer, prefix: px } => {
+            Op::Withdraw { peer, prefix: px, pid } => {
                 let p = *peer as usize % 2;
                 if !live[p] {
                     continue;
                 }
-                let msg = Message::Update(Update::Unreach { family: Family::IPV4, entries: vec![bgp::PathNlri { path_id: 0, nlri: prefix(*px) }] });
+                let msg = Message::Update(Update::Unreach { family: Family::IPV4, entries: vec![bgp::PathNlri { path_id: if c.addpath { 1 + (*pid % 2) as u32 } else { 0 }, nlri: prefix(*px) }] });
                 peers[p].send_msg(&mut codecs[p], &msg).await?;
             }
             Op::Station(policy) => {
@@ -269,7 +299,7 @@ async fn run_case(c: &Case) -> CheckResult {
                     info.nontrivial = true;
                     info.classes.push("station-connects-to-filled-rib");
                 }
-                stations.push(Station { stream: ours, cancel, task, buf: vec![], policy: policy % 3, initiated: false, up: BTreeSet::new(), pre: View::new(), post: View::new(), closed: false, messages: 0 });
+                stations.push(Station { stream: ours, cancel, task, buf: vec![], policy: policy % 3, initiated: false, up: BTreeSet::new(), addpath_in: BTreeMap::new(), pre: View::new(), post: View::new(), closed: false, messages: 0 });
             }
             Op::StationGone(k) => {
                 if stations.is_empty() {
@@ -343,14 +373,14 @@ pub fn arb_case(max: usize) -> impl Strategy<Value = Case> {
     let op = prop_oneof![
         3 => (0u8..2).prop_map(Op::Up),
         1 => (0u8..2).prop_map(Op::Down),
-        8 => (0u8..2, 0u8..5, 0u8..6).prop_map(|(peer, prefix, variant)| Op::Announce { peer, prefix, variant }),
-        3 => (0u8..2, 0u8..5).prop_map(|(peer, prefix)| Op::Withdraw { peer, prefix }),
+        8 => (0u8..2, 0u8..5, 0u8..6, 0u8..2).prop_map(|(peer, prefix, variant, pid)| Op::Announce { peer, prefix, variant, pid }),
+        3 => (0u8..2, 0u8..5, 0u8..2).prop_map(|(peer, prefix, pid)| Op::Withdraw { peer, prefix, pid }),
         3 => (0u8..3).prop_map(Op::Station),
         1 => (0u8..2).prop_map(Op::StationGone),
     ];
-    proptest::collection::vec(op, 1..max).prop_map(|mut ops| {
+    (prop::bool::weighted(0.4), proptest::collection::vec(op, 1..max)).prop_map(|(addpath, mut ops)| {
         ops.insert(0, Op::Up(0));
-        Case { ops }
+        Case { addpath, ops }
     })
 }
 
